@@ -41,6 +41,7 @@ type sink struct {
 	preHash  string
 	writes   int
 	syncs    int
+	stream   []byte // what an append-only file behind this sink would hold
 }
 
 type sinkRec struct {
@@ -57,8 +58,11 @@ func (s *sink) Write(p []byte) (int, error) {
 	s.writes++
 	s.recs = append(s.recs, sinkRec{raw: bytes.Clone(p), before: fileHash(s.dbPath) == s.preHash})
 	if s.failMode == 1 {
-		return 0, errors.New("injected audit write failure")
+		// a short write: half of the record reaches the file, then the device fails
+		s.stream = append(s.stream, p[:len(p)/2]...)
+		return len(p) / 2, errors.New("injected audit write failure")
 	}
+	s.stream = append(s.stream, p...)
 	return len(p), nil
 }
 
@@ -478,6 +482,7 @@ type shadow struct {
 	latest map[string]uint32
 	gone   map[string][]uint32
 	last   map[string][]byte
+	vals   map[string]map[uint32][]byte // bytes of every version ever stored under the name's current incarnation
 }
 
 func (w *dbWorld) genOp(r *rand.Rand, sh *shadow, profile string) dbOp {
@@ -488,7 +493,7 @@ func (w *dbWorld) genOp(r *rand.Rand, sh *shadow, profile string) dbOp {
 	}
 	// reserved-prefix names whose remainder is an ordinary secret's name: acting on the one must
 	// never touch the other
-	nameW := []string{"a", "a", "a", "b", "b", "dev/x", "_internal/k", "", "a\nb", "é/π", "_internal/a", "_internal/b", "_internal/dev/x"}
+	nameW := []string{"a", "a", "a", "b", "b", "dev/x", "_internal/k", "", "a\nb", "é/π", "_internal/a", "_internal/b", "_internal/dev/x", "dev/../a", "dev//x"}
 	op.name = pick(r, nameW)
 	kinds := []string{"put", "put", "put", "put", "activate", "activate", "delver", "delver", "delete", "get", "getver", "getcond", "getcond", "info", "list"}
 	op.kind = pick(r, kinds)
@@ -501,7 +506,16 @@ func (w *dbWorld) genOp(r *rand.Rand, sh *shadow, profile string) dbOp {
 		verChoices = append(verChoices, g[r.Intn(len(g))])
 	}
 	op.ver = pick(r, verChoices)
-	switch r.Intn(7) {
+	switch r.Intn(8) {
+	case 7:
+		// the bytes of one of the versions that still exist (not necessarily the newest or the
+		// one most recently assigned): a put of them is a new version unless they are exactly
+		// the most recently assigned version's
+		if vs := sh.vers[op.name]; len(vs) > 0 && sh.vals[op.name] != nil {
+			op.val = append([]byte(nil), sh.vals[op.name][vs[r.Intn(len(vs))]]...)
+		} else {
+			op.val = []byte("b")
+		}
 	case 6:
 		// almost the value most recently put under this name (one letter's case, one non-UTF-8
 		// byte, one bit, or the length differs): still a different value
@@ -566,6 +580,15 @@ func (sh *shadow) update(op dbOp, res string) {
 			sh.active[op.name] = v
 		}
 		sh.last[op.name] = op.val
+		if sh.vals == nil {
+			sh.vals = map[string]map[uint32][]byte{}
+		}
+		if sh.vals[op.name] == nil {
+			sh.vals[op.name] = map[uint32][]byte{}
+		}
+		if _, had := sh.vals[op.name][v]; !had {
+			sh.vals[op.name][v] = append([]byte(nil), op.val...)
+		}
 	case op.kind == "activate" && res == "done":
 		sh.active[op.name] = op.ver
 	case op.kind == "delver" && res == "done":
@@ -583,6 +606,7 @@ func (sh *shadow) update(op dbOp, res string) {
 		delete(sh.latest, op.name)
 		delete(sh.gone, op.name)
 		delete(sh.last, op.name)
+		delete(sh.vals, op.name)
 	}
 }
 
@@ -657,6 +681,13 @@ func traceDB(o opts) error {
 				// Write the audit.Writer rejects every later record without calling the
 				// sink again (the server stays fail-closed until restarted).  A Write
 				// failure therefore ends the history; Sync failures are transient.
+				// One probe first, with the device healthy again: whatever it writes, every
+				// complete line of the log must still be one whole record.
+				probe := w.exec(dbOp{kind: "list", caller: 0, aok: 1, sok: true})
+				if i := strings.IndexByte(probe, ':'); i > 0 {
+					probe = probe[:i]
+				}
+				emit("auditstream\tok=%s\tprobe=%s", b01(streamOK(w.sk)), probe)
 				break
 			}
 		}
@@ -731,4 +762,19 @@ func nearDup(r *rand.Rand, v []byte) []byte {
 		out = append(out, byte(r.Intn(256)))
 	}
 	return out
+}
+
+
+// streamOK: every newline-terminated line of the log is one JSON object with the mandatory fields.
+func streamOK(sk *sink) bool {
+	sk.mu.Lock()
+	defer sk.mu.Unlock()
+	lines := bytes.Split(sk.stream, []byte("\n"))
+	for _, ln := range lines[:len(lines)-1] { // the last piece is unterminated (possibly a fragment)
+		var e map[string]any
+		if json.Unmarshal(ln, &e) != nil || e["principal"] == nil || e["action"] == nil || e["id"] == nil {
+			return false
+		}
+	}
+	return true
 }
